@@ -94,3 +94,40 @@ def run_model(ctx, tables, kind, cases, max_rounds=12):
 
 def impl_args(cases):
     return ["(" + " ".join(c["head"]) + " ())" for c in cases]
+
+
+def run_model_seq(ctx, tables, kind, cases, max_rounds=12):
+    """cases: list of lists of calls {sys, head, keys}; the case argument is the list of
+    (head... table) calls, each with the table of its own system.  A missing key is added to
+    every call of the case."""
+    out = [None] * len(cases)
+    todo = list(range(len(cases)))
+    for rnd in range(max_rounds):
+        allkeys = []
+        for i in todo:
+            for c in cases[i]:
+                allkeys += [(c["sys"], a, s) for (a, s) in c["keys"]]
+        tables.ensure(allkeys)
+        args = []
+        for i in todo:
+            args.append("(" + " ".join("(" + " ".join(c["head"]) + " " + tables.table_text(c["sys"], c["keys"]) + ")" for c in cases[i]) + ")")
+        res = ctx.model(kind, args)
+        nxt = []
+        for i, line in zip(todo, res):
+            if line.startswith('("need" '):
+                need = parse_sx(line)
+                for c in cases[i]:
+                    c["keys"].add((int(need[1]), bytes(need[2])))
+                nxt.append(i)
+            else:
+                out[i] = line
+        todo = nxt
+        if not todo:
+            break
+    for i in todo:
+        out[i] = '("need-unresolved")'
+    return out
+
+
+def impl_args_seq(cases):
+    return ["(" + " ".join("(" + " ".join(c["head"]) + " ())" for c in calls) + ")" for calls in cases]
